@@ -271,6 +271,11 @@ func Check(s *Spec) (res Result, ok bool) {
 // It is a depth-first walk of the prefix tree of builder-call sequences. shard/nshard split the
 // first slot's choices over workers.
 func Enumerate(k int, P []int, prologues []int, shard, nshard int, fn func(s *Spec)) {
+	EnumerateKinds(k, P, prologues, []bool{false, true}, shard, nshard, fn)
+}
+
+// EnumerateKinds is Enumerate with a choice of filler kinds (false: loads, true: short-jump pairs).
+func EnumerateKinds(k int, P []int, prologues []int, padKinds []bool, shard, nshard int, fn func(s *Spec)) {
 	s := &Spec{Slots: make([]Slot, k), Pads: make([]int, k)}
 	counter := 0
 	var recSlot func(j int)
@@ -310,7 +315,7 @@ func Enumerate(k int, P []int, prologues []int, shard, nshard int, fn func(s *Sp
 		}
 		if j == k {
 			for _, pro := range prologues {
-				for _, pj := range []bool{false, true} {
+				for _, pj := range padKinds {
 					for _, sh := range []bool{true, false} {
 						s.PadJumps, s.ShareLabel, s.Prologue = pj, sh, pro
 						fn(s)
